@@ -279,6 +279,15 @@ func checkMain(repo, verifRoot, prop, tier, replayFile string, verbose bool) int
 	if os.Getenv("GOVC_UPDATE_BASELINE") != "" {
 		nb := Baseline{Classes: map[string]bool{}}
 		classAll := map[string]bool{}
+		// a unit that is verified at all is claimed for every safety kind: a new failing safety obligation in it
+		// (for example a lock that is no longer released on some path) is a violation, not an unclaimed novelty
+		for _, r := range results {
+			for k := range safetyKinds {
+				if _, ok := classAll[r.Unit+"|"+k]; !ok {
+					classAll[r.Unit+"|"+k] = true
+				}
+			}
+		}
 		for _, r := range results {
 			k := r.Unit + "|" + r.Kind
 			if _, ok := classAll[k]; !ok {
@@ -441,6 +450,7 @@ func resetGlobals() {
 	heapValType = map[string]types.Type{}
 	heapKeySort = map[string]string{}
 	heapKeyType = map[string]types.Type{}
+	heapSortOf = map[string]string{}
 	iterMapTerm = map[string]string{}
 	iterKeyType = map[string]types.Type{}
 	iterOf = map[*ssa.Range]string{}
